@@ -69,6 +69,9 @@ def run_cost(variant, fmt, ext, data, timeout=600):
     return res
 
 
+PROLOGUE = b'Title: t\n\n{{TOC}}\n\n# head\n\n[>AB]: abbreviation\n\n[?gl]: glossary term\n\n[^fn]: note AB\n\n[#ci]: citation\n\nAB gl x[^fn] y[#ci]\n\n'
+
+
 def work_stack(job):
     seed, idx, sizes, fmts, big = job
     r = core.JobResult()
@@ -125,6 +128,25 @@ def work_stack(job):
                 r.violate('stack-grows:%s' % name, '%s (%s): stack high-water %d KiB at %d bytes vs %d KiB at %d bytes -- still growing with depth' %
                           (name, 'closed' if closed else 'unclosed', hw[(closed, large)] // 1024, large, hw[(closed, small)] // 1024, small),
                           dict(construct=name, closed=closed, sizes=[small, large], highwater=[hw[(closed, small)], hw[(closed, large)]]))
+    # the same nest in a document that switches on the optional tree passes (abbreviation / glossary search, notes, TOC, metadata)
+    done = sorted(n for (cl, n) in hw if cl)
+    if done:
+        nbytes = done[-1]
+        data = PROLOGUE + make_input(name, o, c, fill, nbytes, True)
+        res = run_cost('cov', D.FMT['html'], D.EXT_CLI, data, timeout=300 if big > 100000 else 60)
+        r.evaluations += 1
+        r.stats['child_runs_with_prologue'] += 1
+        if isinstance(res.get('rc'), int) and res['rc'] == 0 and 'stack' in res:
+            r.distinct.add((name, 'prologue', nbytes))
+            base = hw[(True, nbytes)]
+            r.sets['prologue_stack_ratio_x10'].add(int(10 * res['stack'] / max(1, base)))
+            if res['stack'] > 2 * base + 65536:
+                r.violate('stack-grows:%s:with-abbreviations' % name, '%s (%d bytes) after the prologue: stack high-water %d KiB vs %d KiB for the same nest alone -- an optional pass recurses without the depth limit' %
+                          (name, nbytes, res['stack'] // 1024, base // 1024), dict(construct=name, closed=True, bytes=nbytes, highwater=[base, res['stack']], prologue=True))
+        elif res['rc'] != 'timeout' and res['rc'] != 0:
+            sig = signal.Signals(-res['rc']).name if isinstance(res['rc'], int) and res['rc'] < 0 else 'rc%s' % res['rc']
+            r.violate('crash:%s:%s:with-abbreviations' % (sig, name), '%s closed with %d bytes after a prologue defining an abbreviation, glossary term, note and TOC: child ended with %s' % (name, nbytes, sig),
+                      dict(construct=name, closed=True, bytes=nbytes, fmt=0, prologue=True), res.get('err'))
     # recursive token_tree_free exists only without the pool
     data = make_input(name, o, c, fill, big, True)
     res = run_cost('asan-nopool', D.FMT['html'], D.EXT_CLI, data, timeout=120)
